@@ -347,6 +347,25 @@ def s5b(ctx, rep):
                     rep.put(ok, "S5", "agreement", "_BlackboxSimulatorBackend: the repair of elapsed times reads the predecessor from the returned list", g, s,
                             U(s)[:80], f"the pairs come from `{U(lp.iter)}`, not from consecutive elements of `{rv}`: after a resume the time stamps are "
                             "repaired against the skipped levels' raw times - resumed results are stamped too late and arrive out of order")
+    # ... or with the predecessor carried along: previous = L[0]; for current in L[1:]: current[k] = max(current[k], previous[k] + eps); previous = current
+    for lp in walk_shallow(g.node):
+        if isinstance(lp, ast.For) and isinstance(lp.target, ast.Name) and isinstance(lp.iter, ast.Subscript) and isinstance(lp.iter.slice, ast.Slice) \
+                and lp.iter.slice.lower is not None and U(lp.iter.slice.lower) == "1" and lp.iter.slice.upper is None:
+            cur = lp.target.id
+            for s in stmts_in(lp.body):
+                if isinstance(s, ast.Assign) and isinstance(s.targets[0], ast.Subscript) and U(s.targets[0].value) == cur \
+                        and isinstance(s.value, ast.Call) and fn_name(s.value) == "max":
+                    others = {y.id for y in ast.walk(s.value) if isinstance(y, ast.Name) and y.id != cur} - {y.id for y in ast.walk(s.targets[0].slice) if isinstance(y, ast.Name)}
+                    carried = [p_ for p_ in sorted(others)
+                               if any(isinstance(d, ast.Name) and d.id == cur for d in local_defs(g, p_))]
+                    for p_ in carried:
+                        n += 1
+                        firsts = [d for d in local_defs(g, p_) if not (isinstance(d, ast.Name) and d.id == cur)]
+                        ok = U(lp.iter.value) == rv and len(firsts) == 1 and isinstance(firsts[0], ast.Subscript) and U(firsts[0].value) == rv \
+                            and U(firsts[0].slice) == "0"
+                        rep.put(ok, "S5", "agreement", "_BlackboxSimulatorBackend: the repair of elapsed times reads the predecessor from the returned list", g, s,
+                                U(s)[:80], f"the carried predecessor `{p_}` does not run over `{rv}`: after a resume the time stamps are repaired against the "
+                                "skipped levels' raw times - resumed results are stamped too late and arrive out of order")
     if n < 1:
         raise AnchorError("_run_job_and_collect_results: monotonicity repair `results[i] = max(results[i], results[i - 1] + eps)` not found")
 
